@@ -58,3 +58,52 @@ theorem lexLt_wf : WellFounded lexLt := by
   exact lexLt_wf'
 
 end MicroHttp.C08
+
+namespace MicroHttp.C08
+open MicroHttp
+
+/-- `n` consecutive polls (no client or application action in between) -/
+def pollN : Nat → World → World
+  | 0, w => w
+  | n + 1, w => pollN n w.poll.1
+
+/-- Finitely many polls: from every well-behaved world that satisfies the server invariant, polling only while
+    the epoll descriptor signals comes to an end — there is a number `n` of polls, each made on a signalling
+    descriptor and none of them failing, after which the descriptor is silent; invariant and well-behavedness
+    still hold there. (`poll_progress` + well-foundedness of the measure, by well-founded induction.) -/
+theorem finitely_many_polls (w : World) (h : SrvInv w.srv) (hw : w.WellBehaved) :
+    ∃ n, (pollN n w).ready = false ∧ (∀ k, k < n → (pollN k w).ready = true) ∧
+         SrvInv (pollN n w).srv ∧ (pollN n w).WellBehaved := by
+  have key : ∀ m : Nat × Nat × Nat, ∀ w : World, w.measure = m → SrvInv w.srv → w.WellBehaved →
+      ∃ n, (pollN n w).ready = false ∧ (∀ k, k < n → (pollN k w).ready = true) ∧
+           SrvInv (pollN n w).srv ∧ (pollN n w).WellBehaved := by
+    intro m
+    induction m using lexLt_wf.induction with
+    | _ m ih =>
+      intro w hm h hw
+      cases hr : w.ready with
+      | false => exact ⟨0, hr, fun k hk => absurd hk (Nat.not_lt_zero k), h, hw⟩
+      | true =>
+        obtain ⟨_, h', hw'⟩ := poll_ok w h hw
+        have hlt := poll_progress w h hw hr
+        rw [hm] at hlt
+        obtain ⟨n, g1, g2, g3, g4⟩ := ih w.poll.1.measure hlt w.poll.1 rfl h' hw'
+        refine ⟨n + 1, g1, ?_, g3, g4⟩
+        intro k hk
+        cases k with
+        | zero => exact hr
+        | succ k => exact g2 k (Nat.lt_of_succ_lt_succ hk)
+  exact key w.measure w rfl h hw
+
+/-- … and where polling stops nothing the server could do is left (given room in the sockets): no pending
+    connect, no unread client input, no unsent output, every connection registered for input — only client or
+    application actions can create new work. Together: no stall, no spin, finitely many calls. -/
+theorem polls_end_idle (w : World) (h : SrvInv w.srv) (hw : w.WellBehaved) :
+    ∃ n, (pollN n w).ready = false ∧
+      ((∀ c ∈ (pollN n w).srv.conns, 0 < ((pollN n w).sock c.fd).space) →
+        (pollN n w).backlog = [] ∧
+        ∀ c ∈ (pollN n w).srv.conns, ((pollN n w).sock c.fd).unread = [] ∧ pendingWrite c.conn = false ∧ c.interest = .inn) := by
+  obtain ⟨n, g1, _, g3, _⟩ := finitely_many_polls w h hw
+  exact ⟨n, g1, fun hroom => silent_means_idle (pollN n w) g3 g1 hroom⟩
+
+end MicroHttp.C08
